@@ -56,6 +56,12 @@ def run(ck, rng, tier, prop="C01"):
         m = rng.randint(1, 25 if thorough else 8)
         scaling = rng.choice((-1, 0, 1, 2, 3, 4, 5))
         kind = rng.choice(("general", "general", "general", "small"))
+        if c < 4:
+            # every run: no centring (-1) on a matrix with no more rows than columns, every admissible
+            # component requested (the rank is then the number of rows, not rows - 1)
+            n, scaling = rng.randint(2, 5), -1
+            m = n + rng.randint(0, 3)
+            kind = "general"
         X = gen_data(rng, n, m, kind)
         from props import c02
         Xc = c02.preprocess(np.array(X), scaling)
@@ -63,6 +69,8 @@ def run(ck, rng, tier, prop="C01"):
         if rank < 1:
             continue
         npc = rng.choice((1, rank, rank, rng.randint(1, rank)))
+        if c < 4:
+            npc = rank
         nproc = rng.choice((1, 1, 2, 3, 5, 8, 16))
         New = [[rng.gauss(0, 1) for _ in range(m)] for _ in range(2)]
         lines.append("pca %s %s %d %d %d" % (vf.fmt_mat(X, m), vf.fmt_mat(New, m), scaling, npc, nproc))
@@ -84,6 +92,10 @@ def run(ck, rng, tier, prop="C01"):
         if o.get("nonterminating"):
             ck.fail("PCA", "nontermination_full_rank_request", "PCA did not return within %d inner iterations although npc <= rank" % 400000,
                     {"X": X, "scaling": scaling, "npc": npc})
+            continue
+        if len(o["scores"]) != n or (n and len(o["scores"][0]) != npc) or len(o["loadings"]) != m or (m and len(o["loadings"][0]) != npc) or len(o["varexp"]) != npc:
+            ck.fail("PCA", "component_count", "%d components requested (rank %d after preprocessing), the model holds %s scores / %s loadings / %d explained variances" % (
+                npc, rank, np.array(o["scores"]).shape, np.array(o["loadings"]).shape, len(o["varexp"])), {"X": X, "scaling": scaling, "npc": npc})
             continue
         T, P, D = cols(o["scores"]), cols(o["loadings"]), cols(o["dmodx"])
         # model correspondence is evaluated for moderately sized cases (iteration counts can be large)
